@@ -17,7 +17,7 @@ META = {
                    "factors are cut at the capped rank; (5) the operand is intact (effect analysis: fresh rank list, no "
                    "write through self); (6) the rank decision table is total and minimal.",
     "assumptions": ["accuracy of QR/SVD and floating-point roundoff are outside the claim"],
-    "floors": {"E4-ALLOWANCE": 1, "ORTHO-FIRST": 3, "SWEEP-DIR": 2, "RANK-CAP": 5, "CMP-TOTAL": 1, "E3-PARAM": 2},
+    "floors": {"E5-CHAIN": 20, "E4-ALLOWANCE": 1, "ORTHO-FIRST": 3, "SWEEP-DIR": 2, "RANK-CAP": 5, "CMP-TOTAL": 1, "E3-PARAM": 2},
 }
 ANCHORS = ["_decomposition.round_tt", "_decomposition.lr_orthogonal", "_decomposition.rank_chop", "_tt_base.TT.round"]
 
